@@ -99,7 +99,7 @@ type Workspace struct {
 	Worker  string // path of the worker binary
 }
 
-const goMod = `module verifwork
+var goMod = `module verifwork
 
 go 1.21
 
@@ -110,8 +110,16 @@ require (
 
 replace github.com/200sc/bebop => /repo
 
-replace verif/harness => /verif/harness
+replace verif/harness => ` + harnessDir() + `
 `
+
+func harnessDir() string {
+	if r := os.Getenv("VERIF_ROOT"); r != "" {
+		return r + "/harness"
+	}
+	return "/verif/harness"
+}
+
 
 func goEnv() []string {
 	env := os.Environ()
